@@ -764,7 +764,10 @@ def run_reserve(pair, rng, variant, opts):
         if tr.call(OWNER, ep, args)["st"] == "ok":
             allocated.append(h)
             tr.dump()
-            if tr.call(OWNER, "blacklist", [1, h])["st"] == "ok":
+            # (v2 offers two blacklisting endpoints, `addUsersToBlacklist` and `refundUserTickets`: the round trip
+            # must work after either of them)
+            bep0 = "refundUsers" if variant == "guarV2" and rng.chance(1, 2) else "blacklist"
+            if tr.call(OWNER, bep0, [1, h])["st"] == "ok":
                 tr.dump()
                 tr.call(OWNER, "unblacklist", [1, h])
             tr.dump()
